@@ -22,5 +22,6 @@ open RV.C02
 #print axioms conc_api_outputs_are_observations
 #print axioms conc_refine_history
 #print axioms conc_isolation
+#print axioms conc_shared_triple_survives
 #print axioms conc_union_view_and_empty
 #print axioms conc_graph_lifecycle
